@@ -215,6 +215,7 @@ pub fn sct(s: &SignedCertificateTimestamp) -> MSct {
         extensions: s.extensions.0.to_vec(),
         hash: sg.alg.map(|a| a.0).unwrap_or(0),
         sign: sg.alg.map(|a| a.1).unwrap_or(0),
+        alg_present: sg.alg.is_some(),
         signature: sg.data,
     }
 }
